@@ -7,6 +7,7 @@ class LtlHorizon(LtlAstVisitor):
 
     def __init__(self):
         self.horizons = dict()
+        self.sample = None  # length of one sample in the default unit, when the pastifier knows it
 
     def visitConstant(self, node, *args, **kwargs):
         out = 0
@@ -168,13 +169,13 @@ class LtlHorizon(LtlAstVisitor):
 
     def visitNext(self, node, *args, **kwargs):
         op_horizon = self.visit(node.children[0], *args, **kwargs)
-        self.horizons[node] = op_horizon + 1
-        return op_horizon + 1
+        self.horizons[node] = op_horizon + (self.sample or 1)
+        return op_horizon + (self.sample or 1)
 
     def visitStrongNext(self, node, *args, **kwargs):
         op_horizon = self.visit(node.children[0], *args, **kwargs)
-        self.horizons[node] = op_horizon + 1
-        return op_horizon + 1
+        self.horizons[node] = op_horizon + (self.sample or 1)
+        return op_horizon + (self.sample or 1)
 
     def visitHistorically(self, node, *args, **kwargs):
         op_horizon = self.visit(node.children[0], *args, **kwargs)
